@@ -32,9 +32,11 @@ func (am *Machine) saveBLSKeyring(dkgID string, blsKeyring *dkg.BLSKeyring) erro
 	if err != nil {
 		return fmt.Errorf("failed to encrypt BLS keyring: %w", err)
 	}
+	simYield(am, "air.store.beforeKeyringPut")
 	if err := am.db.Put([]byte(makeBLSKeyKeyringDBKey(dkgID)), encryptedKeyring, nil); err != nil {
 		return fmt.Errorf("failed to save BLSKeyring into db: %w", err)
 	}
+	simYield(am, "air.store.afterKeyringPut")
 	return nil
 }
 
